@@ -1,4 +1,5 @@
 import OcppModel.DriverContainers
+import OcppModel.DriverDateTime
 
 /-! Line-protocol oracle: `driver <suite>` reads one operation per line on stdin and prints the model's
     observable output for each. -/
@@ -19,9 +20,16 @@ partial def loopContainers (h : IO.FS.Stream) (out : IO.FS.Stream) (st : Ocpp.Dr
   out.putStrLn o
   loopContainers h out st'
 
+partial def loopPure (h : IO.FS.Stream) (out : IO.FS.Stream) (f : List String → String) : IO Unit := do
+  let line ← h.getLine
+  if line.isEmpty then return ()
+  out.putStrLn (f (splitWs line))
+  loopPure h out f
+
 def main (args : List String) : IO UInt32 := do
   let stdin ← IO.getStdin
   let stdout ← IO.getStdout
   match args with
   | ["containers"] => loopContainers stdin stdout {}; pure 0
+  | ["datetime"] => loopPure stdin stdout Ocpp.Drv.stepDateTime; pure 0
   | _ => IO.eprintln "usage: driver <suite>"; pure 2
